@@ -22,22 +22,63 @@ def _extra(lines, verdicts):
     return {"derived_structs_exercised": len(structs), "impl_accepted": accepted,
             "impl_rejected": rejected, "impl_round_trips_completed": rt}
 
+N_STRUCTS = 63
+
+def _post(lines, verdicts):
+    """Coverage floors: the run must really have exercised what the evidence claims.  Skipped for
+    replays (a replay file carries only the failing cases)."""
+    if len(lines) < 1000:
+        return []
+    problems = []
+    kinds, per_struct, rts, accepted, xd = {}, {}, 0, 0, 0
+    for ln in lines:
+        f = ln.split("|")
+        head = f[0].split()
+        out = f[1].split() if len(f) > 1 else []
+        if not head:
+            continue
+        kinds[head[0]] = kinds.get(head[0], 0) + 1
+        if head[0] == "XD":
+            xd += 1
+            continue
+        per_struct[head[1]] = per_struct.get(head[1], 0) + 1
+        if out[:1] == ["ok"]:
+            accepted += 1
+        if "rt" in out and out[out.index("rt") + 1:out.index("rt") + 2] == ["ok"]:
+            rts += 1
+    n = len(lines)
+    for k, share in (("SV", 0.10), ("DV", 0.15), ("SR", 0.08), ("DR", 0.05)):
+        if kinds.get(k, 0) < share * n:
+            problems.append(("diff", f"coverage: kind {k}", f"diff coverage-floor kind {k}: {kinds.get(k, 0)} of {n} cases"))
+    if xd != N_STRUCTS:
+        problems.append(("diff", "coverage: XD", f"diff coverage-floor descriptor self-check ran for {xd} structs, expected {N_STRUCTS}"))
+    if len(per_struct) != N_STRUCTS or min(per_struct.values()) < 200:
+        low = sorted(per_struct.items(), key=lambda kv: kv[1])[:3]
+        problems.append(("diff", "coverage: structs", f"diff coverage-floor {len(per_struct)} structs exercised (expected {N_STRUCTS}), least: {low}"))
+    if accepted < 0.25 * n:
+        problems.append(("diff", "coverage: accepted", f"diff coverage-floor only {accepted} of {n} cases accepted by the implementation"))
+    if rts < 0.05 * n:
+        problems.append(("diff", "coverage: round trips", f"diff coverage-floor only {rts} completed round trips"))
+    return problems
+
 SPEC = {
     "pid": "C16",
     "coq_targets": ["Props/C16.vo", "Extract/ExC16.vo"],
     "bin": "c16",
     "sizes": {"quick": 60000, "thorough": 2000000},
     "search_n": 300000,
-    "rule": ("fixed family of 52 derived structs (28 UDT-value structs with SerializeValue+DeserializeValue, 12 row structs with "
-             "SerializeRow+DeserializeRow, 12 SerializeRow structs with #[scylla(flatten)]), each registered with its descriptor text; "
+    "rule": ("fixed family of 63 derived structs (33 UDT-value structs with SerializeValue+DeserializeValue, 15 row structs with "
+             "SerializeRow+DeserializeRow, 15 SerializeRow structs with #[scylla(flatten)]), each registered with its descriptor text (re-derived from the attribute text of the runner's own source as a self-check, kind XD); "
              "per struct: every permutation of its <= 6 bound fields, every subset of fields missing in 4 orders, one extra field at "
              "every position, two extras at every pair of positions, every field duplicated at every position, every field with "
              "every other DB type, Rust identifiers of renamed fields as DB names, a non-UDT type; per DB list one serialize case "
              "(with round trip through the derived deserializer on the implementation's own bytes) and deserialize cases with "
-             "random cells / every null pattern (<= 4 fields) / truncated value lists; then --n seeded random cases. "
+             "random cells / every null pattern (all orders for <= 3 fields, declared and reversed order up to 4 fields quick / 6 thorough) / truncated value lists; then --n seeded random cases. "
              "non-trivial = DB list non-empty and a UDT / column list; distinct = distinct case lines"),
     "nontrivial": _nontrivial,
     "extra_coverage": _extra,
+    "post": _post,
+    "min_cases": {"quick": 120000, "thorough": 3000000},
     "trusted_base": [
         "doc_* functions of coq/Model/Derive.v are the attribute documentation of scylla-macros/src/lib.rs transcribed by hand",
         "the descriptor text registered next to each struct of harness/src/bin/c16.rs (checked by the tie: a wrong descriptor disagrees)",
